@@ -181,5 +181,6 @@ def _(c):
     c.ensures("same(result, self.public_key_balances_by_hash(key))",
               MEMO % ("self.cache", "self.cache"),
               # ... and what was obtained earlier stays what it was
-              "every(bytes, lambda k: implies(k in cache0, k in self.cache and same(self.cache[k], cache0[k])))")
+              "every(bytes, lambda k: implies(k in cache0 and k in self.cache, same(self.cache[k], cache0[k])))")
+    # (whether an entry is KEPT is a matter of caching policy, not of the property: dropping one only costs a recomputation)
     c.modifies("self.cache")
